@@ -14,12 +14,10 @@
   Not covered: manually set `IsOdd`/`IsEven` flags, `EvaluateFromPowerBasis` with a pre-filled basis,
   the scale-invariant (bfv) mode, composite circuits (sign/step/inverse/mod1).
 
-  Defects of the real code reproduced by the model and exhibited by failing probes:
-    * lazy relinearisation (`Polynomial.Lazy = true`) gives wrong results in BOTH schemes: see
-      `lazy_accumulator_loses_degree_two_part`;
-    * a constant polynomial (degree 0) makes `Evaluate` panic (`1 << -1` in `bignum.OptimalSplit`);
-    * `bignum.Polynomial.Factorize` guards `n ≥ deg>>1` but indexes `pr.Coeffs[-1]` for odd degree at
-      `n = deg>>1` in the Chebyshev basis.
+  The model follows the code with the fixes C13-1 (bgv `MulThenAdd` keeps the accumulator's degree and
+  takes the smaller level; the ckks counterpart is C06-6/C06-7), C13-2 (constant polynomials) and
+  C13-3 (guard of `bignum.Polynomial.Factorize`) applied: `mulThenAdd_keeps_degree_two_part`,
+  `constant_polynomial_spec`, `factorize_guard_spec`.
 -/
 import Lattigo.Proofs.PolyEvalCheb
 
@@ -105,24 +103,46 @@ theorem too_few_levels (env : Env) (polys : List (List Int)) (mapping : Option (
     (h : inLevel < depthCheck ((polys.headD []).length - 1)) :
     run env polys mapping lazy inLevel inScale tScale x = ([], "err", none) := by
   have h' : inLevel < depthCheck ((polys.head?.getD []).length - 1) := by simpa using h
-  simp [run, evaluate, h', setP, ExceptT.run, bind, ExceptT.bind, ExceptT.mk, ExceptT.bindCont, StateT.bind,
+  have hdeg : ¬ ((polys.head?.getD []).length - 1 = 0) := by
+    intro h0; rw [h0] at h'; simp [depthCheck] at h'
+  simp [run, evaluate, h', hdeg, setP, ExceptT.run, bind, ExceptT.bind, ExceptT.mk, ExceptT.bindCont, StateT.bind,
     StateT.run, modify, modifyGet, MonadStateOf.modifyGet, StateT.modifyGet, throw, throwThe,
     MonadExceptOf.throw, ExceptT.lift, monadLift, MonadLift.monadLift, pure, ExceptT.pure,
     StateT.pure, Functor.map, StateT.map]
 
-/-- **the lazy-relinearisation defect** (model of `Evaluator.MulThenAdd(ct, scalar|vector, acc)`,
-    schemes/bgv/evaluator.go:1170,1210 and schemes/ckks/evaluator.go:945: `opOut.Resize(op0.Degree(), …)`):
-    adding a relinearised (degree-1) power into an accumulator whose degree-2 component holds data
-    shrinks the accumulator to degree 1 — the result no longer decrypts to the accumulated value.
-    With `Polynomial.Lazy = true` every baby step of degree ≥ 3 does exactly this (X^3 is kept at
-    degree 2, X^2 and X are relinearised), in both schemes; probes `value_bgv` / `value_ckks` fail on
-    every such input and the tie predicts each of them. -/
-theorem lazy_accumulator_loses_degree_two_part (env : Env) (x res : Opd) (c : List Int) (st : St)
-    (hx : x.deg = 1) (hres : res.deg = 2) (hc2 : res.c2 = true) :
+/-- **constant_polynomial_spec**: a constant polynomial `c` (no mapping) is accepted at every input
+    level, consumes no level, and yields one operation — the addition of the coefficient to a fresh
+    zero ciphertext at the requested scale: level = input level, scale = target scale, value `c` in
+    every slot (mod `t`). -/
+theorem constant_polynomial_spec (env : Env) (c : Int) (lazy : Bool) (inLevel inScale tScale : Nat)
+    (x : List Int) :
+    run env [[c]] none lazy inLevel inScale tScale x
+      = ([s!"add({showOpd env { level := inLevel, scale := tScale, deg := 1, val := [] }},c)"], "ok",
+         some { level := inLevel, scale := tScale, deg := 1,
+                val := zipV (fun a b => redV env (a + b)) (List.replicate env.slots 0)
+                  (List.replicate env.slots c) }) := by
+  simp [run, evaluate, evalFromPowerBasis, addConst, log, coeffVec, SubPoly.degree, showOpd, setP,
+    ExceptT.run, bind, ExceptT.bind, ExceptT.mk, ExceptT.bindCont, StateT.bind,
+    StateT.run, modify, modifyGet, MonadStateOf.modifyGet, StateT.modifyGet, get, getThe, MonadStateOf.get,
+    StateT.get, liftM, ExceptT.lift, monadLift, MonadLift.monadLift, pure, ExceptT.pure,
+    StateT.pure, Functor.map, StateT.map]
+
+/-- **mulThenAdd_keeps_degree_two_part** (model of `Evaluator.MulThenAdd(ct, scalar|vector, acc)` after
+    C13-1): the accumulator keeps the larger degree and takes the smaller level, so the degree-2 part
+    accumulated from a lazily relinearised power survives the addition of the relinearised ones. -/
+theorem mulThenAdd_keeps_degree_two_part (env : Env) (x res : Opd) (c : List Int) (st : St) :
     ∃ o st', (ExceptT.run (mulThenAddConst env x c res)).run st = (Except.ok o, st') ∧
-      o.deg = 1 ∧ o.bad = true := by
-  refine ⟨_, _, rfl, ?_, ?_⟩ <;>
-    simp [hx, hres, hc2]
+      o.deg = max res.deg x.deg ∧ o.level = min res.level x.level ∧ o.scale = res.scale := by
+  exact ⟨_, _, rfl, rfl, rfl, rfl⟩
+
+/-- **factorize_guard_spec**: whatever passes the guard of `Factorize(n)` satisfies the hypothesis of
+    `factorize_spec_chebyshev` (`deg ≤ 2n`): the guard is exactly strong enough -/
+theorem factorize_guard_spec (n : Nat) (p : List Int) (h : factorizeGuard n p.length = false) :
+    p.length ≤ 2 * n + 1 := by
+  simp only [factorizeGuard, decide_eq_false_iff_not, not_lt] at h
+  omega
+
+example : factorizeGuard 3 8 = true ∧ factorizeGuard 4 8 = false := by decide
 
 /-- slots outside every mapping receive the coefficient 0 of every power: they evaluate to 0 -/
 theorem unmapped_slots_zero (env : Env) (m : List (List Nat)) (coeffs : List (List Int)) (k j : Nat)
@@ -141,7 +161,9 @@ theorem unmapped_slots_zero (env : Env) (m : List (List Nat)) (coeffs : List (Li
 #print axioms depth_spec_partial
 #print axioms depth_guard_gap
 #print axioms too_few_levels
-#print axioms lazy_accumulator_loses_degree_two_part
+#print axioms constant_polynomial_spec
+#print axioms mulThenAdd_keeps_degree_two_part
+#print axioms factorize_guard_spec
 #print axioms unmapped_slots_zero
 
 end Lattigo.Props.C13
